@@ -41,6 +41,7 @@ K = _SPEC.K if _SPEC else (1, 1, 1)
 
 _KNOWN_GENERIC = known("C04-filter-none-generic")
 _KNOWN_SUBCLASS = known("C04-subclass-ambiguity")
+_KNOWN_DUPNAME = known("C04-duplicate-element-name")
 
 
 def _valid(i0, i1, s0, s1, b0, k0, k1, k2):
@@ -48,6 +49,10 @@ def _valid(i0, i1, s0, s1, b0, k0, k1, k2):
     # exactly the signatures of the listed known findings are excluded
     if _KNOWN_SUBCLASS and name == "holder":
         if k0 == 1 or PART.get("filter"):  # a Base instance / a Derived whose extras are None under FILTER_NONE
+            return False
+    if _KNOWN_SUBCLASS and name == "family":
+        used = [k0, k1][:k2]
+        if 0 in used or (PART.get("filter") and 3 in used):  # a Base instance / a Derived whose extras are None under FILTER_NONE
             return False
     if _KNOWN_GENERIC and PART.get("filter") and name in ("wild_text", "wild_attrs"):
         if (name == "wild_text" and k0 != 0) or (name == "wild_attrs" and k1 != 0):
@@ -139,6 +144,8 @@ _SKIP = {"anytyped"}  # untyped primitive fields are excluded by the property st
 
 def plan(tier):
     jobs = []
+    if _KNOWN_DUPNAME:
+        _SKIP.add("dup")  # the whole builder is the signature of the listed known finding (two fields with one element name)
     names = [n for n in c01._QUICK_SPECS if n not in _SKIP]
     if tier == "quick":
         slow = {"unions_str": 1, "compound": 1}
@@ -173,3 +180,10 @@ def subclass_witness():
 
     obj = Holder(b=Base(x=1))
     return DictDecoder().decode(DictEncoder().encode(obj), Holder) == obj
+
+
+def dupname_witness():
+    from harness.models import Dup
+
+    obj = Dup(code=42, label="l", alt_code="0042")
+    return DictDecoder().decode(DictEncoder().encode(obj), Dup) == obj
